@@ -71,6 +71,8 @@ pub enum Pick {
     Member(usize),
     /// two consecutive samples from one distribution value
     Two(usize, usize),
+    /// many consecutive samples from one distribution value
+    Many(Vec<usize>),
     NotAMember,
     ConstructionError,
     WrongNumChoices(usize),
@@ -99,6 +101,8 @@ fn judge_ref(src: &[u32], r: &u32) -> Pick {
 thread_local! {
     /// sample every distribution value twice (joint law of consecutive samples)
     static TWICE: Cell<bool> = const { Cell::new(false) };
+    /// sample every distribution value this many times (0 = off)
+    static MANY: Cell<usize> = const { Cell::new(0) };
 }
 
 macro_rules! sample_val {
@@ -107,6 +111,17 @@ macro_rules! sample_val {
             Ok(d) => {
                 if ChoicesDistribution::num_choices(&d).get() != $n {
                     Pick::WrongNumChoices(ChoicesDistribution::num_choices(&d).get())
+                } else if MANY.with(|t| t.get()) > 0 {
+                    let mut out = vec![];
+                    let mut bad = None;
+                    for _ in 0..MANY.with(|t| t.get()) {
+                        let v: u32 = d.sample($rng);
+                        match judge_val($src, v) {
+                            Pick::Member(i) => out.push(i),
+                            other => bad = Some(other),
+                        }
+                    }
+                    bad.unwrap_or(Pick::Many(out))
                 } else if TWICE.with(|t| t.get()) {
                     let v: u32 = d.sample($rng);
                     let w: u32 = d.sample($rng);
@@ -129,6 +144,17 @@ macro_rules! sample_ref {
             Ok(d) => {
                 if ChoicesDistribution::num_choices(&d).get() != $n {
                     Pick::WrongNumChoices(ChoicesDistribution::num_choices(&d).get())
+                } else if MANY.with(|t| t.get()) > 0 {
+                    let mut out = vec![];
+                    let mut bad = None;
+                    for _ in 0..MANY.with(|t| t.get()) {
+                        let v: &u32 = d.sample($rng);
+                        match judge_ref($src, v) {
+                            Pick::Member(i) => out.push(i),
+                            other => bad = Some(other),
+                        }
+                    }
+                    bad.unwrap_or(Pick::Many(out))
                 } else if TWICE.with(|t| t.get()) {
                     let v: &u32 = d.sample($rng);
                     let w: &u32 = d.sample($rng);
@@ -256,6 +282,42 @@ fn choice_case(flavour: usize, n: usize) -> (u64, u64, Option<(String, String)>,
         }
         if !st2.capped && st2.total_weight_is_one && st2.diverged.is_none() && law2 != want2 {
             return (st.leaves + st2.leaves, st.choice_points, Some((format!("choice/{flavour}/law-of-two"), format!("{label}: two consecutive samples have the joint law {} but independent uniform choices give {}", law2.render(), want2.render()))), law2.mass.len());
+        }
+    }
+    // many consecutive samples from one distribution value (a pooled or cached source of bits would run
+    // out or go stale at some later sample): every stream with at most one non-default word; every one
+    // of the K samples must be able to yield every member
+    if (2..=5).contains(&n) && flavour != 15 && flavour != 14 {
+        const K: usize = 70;
+        let mut seen = vec![vec![false; n]; K];
+        let mut bad: Option<Pick> = None;
+        MANY.with(|t| t.set(K));
+        let st3 = mcx::explore_bounded(
+            |env| pick_once(flavour, n, env, Alphabet::Grid(60)),
+            |_, p| match p {
+                Pick::Many(v) => {
+                    for (k, i) in v.iter().enumerate().take(K) {
+                        seen[k][*i] = true;
+                    }
+                }
+                other => bad = Some(other),
+            },
+            1,
+            200_000,
+        );
+        MANY.with(|t| t.set(0));
+        if let Some(p) = bad {
+            return (st.leaves + st3.leaves, st.choice_points, Some((format!("choice/{flavour}/result"), format!("{label}: among {K} consecutive samples from one distribution value: {p:?}"))), 0);
+        }
+        if !st3.capped {
+            if let Some((k, i)) = (0..K).flat_map(|k| (0..n).map(move |i| (k, i))).find(|(k, i)| !seen[*k][*i]) {
+                return (
+                    st.leaves + st3.leaves,
+                    st.choice_points,
+                    Some((format!("choice/{flavour}/later-samples"), format!("{label}: over every stream with at most one non-default word, sample number {} of one distribution value is never member {i}", k + 1))),
+                    0,
+                );
+            }
         }
     }
     let mut want: Law<Pick> = Law::new();
@@ -470,7 +532,7 @@ pub fn run(run: &mut Run) {
     }
     run.traces_validated = run.evaluations;
     run.distinct_nontrivial = nontrivial;
-    run.rule = "every conversion flavour of conversion.rs (Vec, &Vec, array, &array, slice; into/to; owning OneOfCloning, borrowing Choose, cloning ChooseCloning), the direct constructors and uniform_distribution_of! x source sizes 0..n with pairwise distinct members x all 60 grid words (vector/slice flavours also sizes around powers of two up to 257 (1000) on the grid of their own size; membership additionally on every stream over the extreme words 0 and all-ones): empty source => construction error; otherwise num_choices == len and each member exactly 1/len (borrowing flavours: pointer into the source), two consecutive samples from one distribution value have the product law (sizes 1..4); collection generators for Vec, Bitstring, Plushy and scored populations: exactly `size` elements in generation order (sizes 0..n and around powers of two up to 257 (4096); nested collections 0..3 x 0..3). non-trivial = scenarios with more than one outcome".into();
+    run.rule = "every conversion flavour of conversion.rs (Vec, &Vec, array, &array, slice; into/to; owning OneOfCloning, borrowing Choose, cloning ChooseCloning), the direct constructors and uniform_distribution_of! x source sizes 0..n with pairwise distinct members x all 60 grid words (vector/slice flavours also sizes around powers of two up to 257 (1000) on the grid of their own size; membership additionally on every stream over the extreme words 0 and all-ones): empty source => construction error; otherwise num_choices == len and each member exactly 1/len (borrowing flavours: pointer into the source), two consecutive samples from one distribution value have the product law (sizes 1..4), each of 70 consecutive samples can yield every member (sizes 2..5, every stream with at most one non-default word); collection generators for Vec, Bitstring, Plushy and scored populations: exactly `size` elements in generation order (sizes 0..n and around powers of two up to 257 (4096); nested collections 0..3 x 0..3). non-trivial = scenarios with more than one outcome".into();
     run.bound("max_source_size", json!(max_n));
     run.bound("alphabet", json!("Grid(60)"));
     run.assumptions = vec!["rand's Uniform / slice::Choose map grid cells to members as calibrated".into()];
